@@ -4,6 +4,7 @@ import BigtoolsModel.CheckedBed
 import BigtoolsModel.FileOf
 import BigtoolsModel.FileOfBed
 import BigtoolsModel.WriterSections
+import BigtoolsModel.AtomsGen
 /-! # C09 — every written file is a well-formed BBI file for an independent decoder
 
 Property theorems (statements copied from the lemma modules, proofs by those lemmas). -/
@@ -71,3 +72,16 @@ theorem C09_model_bed_blocks_carry_the_entry_stream (ips chrom : Nat) (hips : 0 
   cutBedSections_bytes ips chrom hips _ items (by omega)
 
 end BW
+
+namespace SectionCut
+
+/-- **The code's own section cut** (regenerated from `process_val` of both writers): a data section is handed over after the
+    chromosome's last item or when it holds `min items_per_slot 65535` items — so no section ever holds more items than its
+    16-bit count field can express (D22), whatever `items_per_slot` is. -/
+theorem C09_source_section_cut (isLast : Bool) (n ips : Nat) :
+    Gen.wig_cut isLast n ips = (isLast || decide (n ≥ min ips 65535)) ∧
+    Gen.bed_cut isLast n ips = (isLast || decide (n ≥ min ips 65535)) ∧
+    (n ≥ 65535 → Gen.wig_cut isLast n ips = true ∧ Gen.bed_cut isLast n ips = true) :=
+  ⟨(gen_cut isLast n ips).1, (gen_cut isLast n ips).2, gen_cut_fits_u16 isLast n ips⟩
+
+end SectionCut
